@@ -34,7 +34,9 @@ def main():
     step_proofs(res, PROP, ['props/C08.vo'])
     if a.tier == 'thorough':
         coqchk(res, ['Props.C08'])
-    drv = build_ocaml(res, 'wire', 'Wire') if not any(k == 'translator' for k, _, _ in res.broken) else None
+    # if the translator cannot read the discriminants any more, the model keeps the constants of the last readable tree:
+    # the correspondence then serves the search for a failing input
+    drv = build_ocaml(res, 'wire', 'Wire')
     rng = random.Random(a.seed)
     n = 600 if a.tier == 'quick' else 8000
     dist, cases, expect = {}, [], {}
